@@ -270,8 +270,12 @@ def run(F, chk):
 
     reserved = _preds(calc, False)
     if len(reserved) < 6:
-        raise AnalysisBroken("R1.10: fewer than 6 attribute predicates reserve bytes in BSTriShape::CalcDataSizes (%s)" % sorted(reserved))
-    for sname in ("nifly::BSTriShape::Sync", "nifly::NiSkinPartition::Sync"):
+        # the layout is not computed by an if-chain over the attribute predicates (a table-driven CalcDataSizes, say): the
+        # agreement is then not decided by this rule, which says so instead of guessing
+        chk.note("R1.10 not evaluated: BSTriShape::CalcDataSizes does not reserve bytes under an if-chain of attribute predicates "
+                 "(found %s)" % sorted(reserved))
+        reserved = set()
+    for sname in ("nifly::BSTriShape::Sync", "nifly::NiSkinPartition::Sync") if reserved else ():
         sfn = F.fn1(sname)
         streamed = _preds(sfn, True)
         for pr in sorted(reserved):
@@ -282,7 +286,8 @@ def run(F, chk):
                               "BSTriShape::CalcDataSizes reserves vertex bytes (and an offset) under %s(), but %s streams nothing under "
                               "that predicate: the vertex size written to the file does not describe the vertex data that follows, "
                               "and every load/save round changes the file" % (pr, sname))
-    chk.floor(R10, 12)
+    if reserved:
+        chk.floor(R10, 12)
 
     # ------------------------------------------------------------------ R1.9
     chk.share(F, "c05", ["R5.1", "R5.5"], "R1.9",
